@@ -177,6 +177,20 @@ CHECKS['C10'] = dict(
     note='Trusted: as C04. OUTSIDE: equality of the integrated state with a single Evolve over the total interval (GSL integrators); '
          'exercised natively only (split vs single interval in the C04 replay).',
     design='§3 C10, §4')
+CHECKS['C19'] = dict(
+    text='squids::detail::cache<long,N> is instantiated from the real header in both configurations, compiled to LLVM IR, and translated '
+         '(irsym/ir2c.py) to pointer-free C: private stack objects become locals, the shared cache object becomes scalar words, the 8-byte '
+         'libatomic calls become atomic sections. CBMC (SAT, partial-order encoding of sequentially consistent threads) then decides, for '
+         'every interleaving of up to 3 concurrent operations (3 threads x 1 and 2 threads x (2+1), all insert/fetch patterns) after 0..N '
+         'sequential inserts: fetches return only successfully inserted blocks, no block is returned twice, a fetched block is not also '
+         'left in the cache, draining at quiescence yields exactly inserted minus fetched; compare-exchange loops are unwound with '
+         '--unwinding-assertions. Single owner (both configurations): every operation sequence of length 2N+2 behaves as a bounded LIFO. '
+         'Counterexamples are confirmed on the REAL template by a schedule explorer that makes every compare-exchange a scheduling point.',
+    note='Trusted: clang-14 -O1 IR; the IR->C translator (validated each run against the real template on 4000 random single-thread '
+         'operations per capacity/configuration); CBMC 6.11; sequential consistency; no spurious CAS failures. Bound: capacity 1 (all '
+         'scenarios) and 2 (seeded scenarios) in the quick tier, capacity 1..4 in the thorough tier; 4+ concurrent operations are outside.',
+    design='§3 C19, §2.3', engine='ir2c+cbmc',
+    technique='IR -> flat-memory C translation + CBMC bounded model checking of all interleavings (SAT); counterexamples confirmed on the real template by schedule exploration')
 NA_REASON = 'check not built yet (framework under construction; see DESIGN.md)'
 NA = {}
 
@@ -204,6 +218,8 @@ m = {
     'engines': [
         {'name': 'irsym', 'path': 'irsym/', 'serves_properties': [p for p in props if p in CHECKS and CHECKS[p].get('engine', 'irsym') == 'irsym'],
          'kind_free_text': 'own symbolic executor for clang-14 LLVM IR (Python) with z3 back end; concrete-double mode doubles as IR interpreter for translation validation against the g++ build'},
+        {'name': 'ir2c+cbmc', 'path': 'irsym/ir2c.py', 'serves_properties': ['C19'],
+         'kind_free_text': 'LLVM IR -> pointer-free C translator feeding CBMC 6.11 (bounded model checking of thread interleavings)'},
     ],
     'checks': checks,
     'notes': 'see DESIGN.md; known_findings.json lists recorded/fixed defects',
